@@ -937,17 +937,19 @@ class PulseSequence:
                 # expected to be sorted in accordance with the opers and coeffs.
                 pass
 
-        # Check if we can pass on intermediates.
+        control_matrix = self.get_control_matrix(omega, cache_intermediates=True)[n_idx]
+
+        # Check if we can pass on intermediates. Only look them up now that the control matrix
+        # has been requested for omega (stale ones have been dropped) and only use them if
+        # they are complete.
         intermediates = dict()
         # TODO 05/22: walrus once support for 3.7 is dropped.
         n_opers_transformed = self._intermediates.get('n_opers_transformed')
         first_order_integral = self._intermediates.get('first_order_integral')
-        if n_opers_transformed is not None:
+        if n_opers_transformed is not None and first_order_integral is not None:
             intermediates['n_opers_transformed'] = n_opers_transformed[n_idx]
-        if first_order_integral is not None:
             intermediates['first_order_integral'] = first_order_integral
 
-        control_matrix = self.get_control_matrix(omega, cache_intermediates=True)[n_idx]
         control_matrix_deriv = gradient.calculate_derivative_of_control_matrix_from_scratch(
             omega, self.propagators, self.eigvals, self.eigvecs, self.basis, self.t, self.dt,
             self.n_opers[n_idx], self.n_coeffs[n_idx], self.c_opers[c_idx], n_coeffs_deriv,
